@@ -24,26 +24,31 @@ class SeismicZfpBackendArray(BackendArray):
         )
 
     def _raw_indexing_method(self, key: tuple) -> np.typing.ArrayLike:
+        # Basic (numpy-style) indexing: integers drop their axis, slices may carry a step of either sign.
+        # The bounding box of the request is decompressed, then strided / squeezed as numpy would.
+        sizes = (self.sgz_reader.n_ilines, self.sgz_reader.n_xlines, self.sgz_reader.n_samples)
+        lows, highs, local, result_shape = [], [], [], []
+        for k, size in zip(key, sizes):
+            if isinstance(k, slice):
+                start, stop, step = k.indices(size)
+                count = len(range(start, stop, step))
+                result_shape.append(count)
+                last = start + (count - 1) * step
+                lows.append(min(start, last))
+                highs.append(max(start, last) + 1)
+                local.append(slice(None, None, step))
+            else:
+                index = k + size if k < 0 else k
+                lows.append(index)
+                highs.append(index + 1)
+                local.append(0)
+        if 0 in result_shape:
+            return np.zeros(result_shape, dtype=np.float32)
 
-        min_il = key[0].start if isinstance(key[0], slice) else key[0]
-        min_xl = key[1].start if isinstance(key[1], slice) else key[1]
-        min_z = key[2].start if isinstance(key[2], slice) else key[2]
-
-        min_il = 0 if min_il is None else min_il
-        min_xl = 0 if min_xl is None else min_xl
-        min_z = 0 if min_z is None else min_z
-
-        max_il = key[0].stop if isinstance(key[0], slice) else key[0] + 1
-        max_xl = key[1].stop if isinstance(key[1], slice) else key[1] + 1
-        max_z = key[2].stop if isinstance(key[2], slice) else key[2] + 1
-
-        max_il = self.sgz_reader.n_ilines if max_il is None else max_il
-        max_xl = self.sgz_reader.n_xlines if max_xl is None else max_xl
-        max_z = self.sgz_reader.n_samples if max_z is None else max_z
-
-        return self.sgz_reader.read_subvolume(min_il=min_il, max_il=max_il,
-                                              min_xl=min_xl, max_xl=max_xl,
-                                              min_z=min_z,   max_z=max_z)
+        subvolume = self.sgz_reader.read_subvolume(min_il=lows[0], max_il=highs[0],
+                                                   min_xl=lows[1], max_xl=highs[1],
+                                                   min_z=lows[2],  max_z=highs[2])
+        return subvolume[tuple(local)]
 
 
 class SeismicZfpBackendEntrypoint(BackendEntrypoint):
